@@ -29,6 +29,8 @@ Grammar (line oriented; '#' starts a comment at line start; '<<<' ... '>>>' deli
     unwindset L:N ...
     switch-slice FN K I N   print switch K (source order) of FN keeping only the arm groups g with g mod N == I; the other
                             arms become assume(0).  Use with 'foreach I in 0 .. N-1': together the slices cover every arm.
+    switch-only FN K LABEL / switch-except FN K LABEL
+                            keep only (all but) the arm group whose first case label contains LABEL
     pre-unwind FN K N       unwind loop K (source order) of function FN N times with unwinding assertion BEFORE contract
                             instrumentation (complete when the assertion holds; needed because cbmc 6.11 dfcc mishandles
                             a loop with a contract nested in a loop without one)
@@ -64,7 +66,7 @@ class UnitSpec:
     def __init__(self, name):
         self.name = name; self.tus = []; self.filters = []; self.includes = []; self.opts = {}
         self.by_contract = []; self.prelude = ''; self.functions = []; self.queries = []
-        self.ghost_fields = {}; self.path = None; self.roots = []; self.ghost_init = ''; self.tu_pre = []; self.cflags = []
+        self.ghost_fields = {}; self.path = None; self.roots = []; self.ghost_init = ''; self.tu_pre = []; self.cflags = []; self.use_enums = []
 
 def parse_file(path):
     lines = open(path).read().split('\n')
@@ -105,6 +107,7 @@ def parse_file(path):
                 elif key == 'tu-header': cur.tus.append(('header', rest))
                 elif key == 'filter': cur.filters.append(rest)
                 elif key == 'tu-pre': cur.tu_pre.append(rest)
+                elif key == 'use-enum': cur.use_enums.append(rest)
                 elif key == 'cflag': cur.cflags += rest.split()
                 elif key == 'include': cur.includes.append(rest)
                 elif key == 'opt':
@@ -145,6 +148,8 @@ def parse_file(path):
                 elif key == 'selfstub': cur.selfstub = True
                 elif key == 'harness': cur.harness += raw_block(rest.split('<<<', 1)[1]) + '\n'
                 elif key == 'unwindset': cur.unwindset += rest.split()
+                elif key in ('switch-only', 'switch-except'):
+                    sfn, sk, lab = rest.split(); cur.switch_slice.append((sfn, int(sk), key[7:], lab))
                 elif key == 'switch-slice':
                     sfn, sk, si, sn = rest.split(); cur.switch_slice.append((sfn, int(sk), si, int(sn)))
                 elif key == 'pre-unwind':
@@ -181,6 +186,13 @@ class SpecHooks:
     def specs_for(self, cname):
         return [f for f in self.u.functions if fnmatch.fnmatchcase(cname, f.pattern)]
 
+    @staticmethod
+    def star(pattern, cname):
+        """text matched by the (single) '*' of the pattern"""
+        if pattern.count('*') != 1: return ''
+        pre, post = pattern.split('*')
+        return cname[len(pre):len(cname) - len(post)] if len(post) else cname[len(pre):]
+
     def ghost_fields(self, q):
         return self.u.ghost_fields.get(q, [])
 
@@ -189,9 +201,10 @@ class SpecHooks:
         name = stub or cname
         for f in self.specs_for(cname):
             self.used_specs.add(f.pattern)
-            for r in f.requires: out.append('__CPROVER_requires(%s)' % r)
+            st = self.star(f.pattern, cname)
+            for r in f.requires: out.append('__CPROVER_requires(%s)' % r.replace('${STAR}', st))
             for (lab, e) in f.ensures:
-                out.append('__CPROVER_ensures(%s) /*@label %s#%s */' % (e, name, lab))
+                out.append('__CPROVER_ensures(%s) /*@label %s#%s */' % (e.replace('${STAR}', st), name, lab))
             for a in f.assigns: out.append('__CPROVER_assigns(%s)' % a)
             for a in f.frees: out.append('__CPROVER_frees(%s)' % a)
         return out
